@@ -33,6 +33,14 @@ D = {
  "C15_1": ("C15", "Parsed::or_always_parse runs the alternative on any non-success", "receiver Res(Err(_))"),
  "C15_2": ("C15", "Parsed::and_also turns a continuation failure into Fallthrough", "Res(Ok) receiver with failing continuation"),
  "C16_1": ("C16", "text::fixed: first byte checked, then request(offset+len) and slice compare", "first byte matches, later byte mismatches, tail not yet buffered: over-read"),
+ 'C03_3': ('C03', 'binary write_binary_uint: single-byte fast path for code <= 0x80 (should be < 0x80)', 'an and gate whose delta is exactly 128 (needs >= 64 variables)'),
+ 'C03_4': ('C03 (also C01)', "btor2 ascii_lowercase_u64_cold: 'reading' latch removed, returns position of the last lowercase letter in the 8-byte window", 'fewer than 8 bytes buffered at a keyword start and a second lowercase run within the window'),
+ 'C06_3': ('C06', 'cnf clause_lits: range check skipped when the limit is the hard (type) limit', 'no header / ignore_header and a literal beyond L::MAX_DIMACS that fits isize (i8/i16/i32 literal types): truncated by from_dimacs'),
+ 'C09_3': ('C09', 'cnf interactive_newline: only a plain LF handled inline, everything else delegated to token::newline (which eats leading blanks of the next line)', 'CRLF line ends arriving line by line: one extra read past the completing line'),
+ 'C04_3': ('C04', "parse_log: with ignore_unknown_lines, 'no line can be skipped' breaks out of the loop as end of input", 'ignore_unknown_lines(true) and a source failing between statements: Ok(log) returned'),
+ 'C05_3': ('C05', 'ascii Parser::parse: justice_properties.push(Vec::with_capacity(justice_property_size))', 'a justice size line declaring a huge count: allocation / capacity overflow from a 31-byte input'),
+ 'C11_3': ('C11', 'write_all_defer_err_cold: write-through uses write() instead of write_all()', 'a slice >= capacity and a sink doing a short write or returning Interrupted'),
+ 'C02_3': ('C02', 'request_more: shrink guard buf.len() > valid_len + 4*chunk (was 4*(pos+valid+chunk))', 'large look-ahead, advance > 2 chunks, refill: truncate cuts live look-ahead, refilled with zeros'),
  "C16_2": ("C16", "same change as C01_2 (newline CR look-ahead)", "read boundary between CR and LF"),
 }
 rows = []
